@@ -178,12 +178,12 @@ pub fn profile_for(prop: &str, variant: u64) -> Profile {
         }
         "C09" | "C15f" => {
             p.name = "write-faults";
-            p.replicas = (1, 3);
+            p.replicas = if variant % 3 == 0 { (1, 3) } else { (2, 3) };
             p.write_faults = true;
             // interrupted operations leave orphan packs and partial copies behind; what happens
             // *after* them (unstage, other edits, partial delivery to peers) is part of the property
             w[K::Trickle as usize] = 10;
-            w[K::Echo as usize] = 4;
+            w[K::Echo as usize] = 12;
             w[K::Unstage as usize] = 6;
             w[K::RoundTrip as usize] = 3;
             w[K::FailWrites as usize] = 8;
@@ -212,6 +212,7 @@ pub fn profile_for(prop: &str, variant: u64) -> Profile {
         }
         "C12" => {
             p.name = "maintenance";
+            w[K::ObjOp as usize] = 4;
             w[K::Diverge as usize] = 24;
             w[K::Snapshot as usize] = 10;
             w[K::Meld as usize] = 10;
@@ -230,6 +231,7 @@ pub fn profile_for(prop: &str, variant: u64) -> Profile {
         "C14" => {
             p.name = "time-travel";
             w[K::Rounds as usize] = 3;
+            w[K::Echo as usize] = 8;
             w[K::ReloadUntil as usize] = 10;
             w[K::Reload as usize] = 6;
             p.len = (10, 50);
@@ -655,10 +657,19 @@ impl Gen {
                     }
                     v.push(Op::Refresh { r });
                     // r now submits what `other` shows (same content => same object digests)
-                    let edits = self.rng.below(2);
+                    let edits = if self.rng.chance(1, 4) { 0 } else { 1 };
                     let doc = self.doc_of(w, other, edits);
                     v.push(Op::Update { r, doc, twice: false });
                     v.push(Op::Commit { r, info: commit_info(&mut self.rng, &cfg) });
+                    if self.w[K::ReloadUntil as usize] > 0 {
+                        // the commit just made depends on a pack no block of its history names: travel to it
+                        // (the newest checkpoint) and back, now and again from a restarted replica
+                        if self.rng.chance(1, 2) {
+                            v.push(Op::Restart { r });
+                        }
+                        v.push(Op::ReloadUntil { r, sel: u32::MAX });
+                        v.push(Op::Reload { r });
+                    }
                     if n >= 3 {
                         // second half (next call, when r's store is known): a third replica learns r's
                         // blocks and r's own packs, never the foreign packs
